@@ -18,6 +18,15 @@ Lemma fold_filter (p : Z -> bool) l :
   fold_right (fun e acc => if p e then e :: acc else acc) [] l = filter p l.
 Proof. induction l as [|x t IH]; [reflexivity|]. cbn [fold_right filter]. rewrite IH. reflexivity. Qed.
 
+(* `if not c: continue` in front of the accumulating if (fix e1e7505) *)
+Lemma fold_skip_filter (c q : Z -> bool) l :
+  fold_right (fun e acc => if negb (c e) then acc else if q e then e :: acc else acc) [] l =
+  filter (fun e => c e && q e) l.
+Proof.
+  induction l as [|x t IH]; [reflexivity|]. cbn [fold_right filter]. rewrite IH.
+  destruct (c x), (q x); reflexivity.
+Qed.
+
 Lemma zlen_eqb_0 {A} (l : list A) : (RRBase.zlen l =? 0) = match l with [] => true | _ => false end.
 Proof. destruct l; [reflexivity|]. unfold RRBase.zlen. cbn [length]. apply Z.eqb_neq. lia. Qed.
 
@@ -52,18 +61,20 @@ Theorem gen_construct_byset_eq : forall itv start l base,
   gen_construct_byset itv start (IMany l) base = construct_byset itv start l base.
 Proof.
   intros. unfold gen_construct_byset, construct_byset. cbv zeta.
-  rewrite (fold_filter (fun e_num => (Z.gcd itv base =? 1) || ((e_num - start) mod Z.gcd itv base =? 0)) l).
+  rewrite (fold_skip_filter (fun e_num => (0 <=? e_num) && (e_num <? base))
+             (fun e_num => (Z.gcd itv base =? 1) || ((e_num - start) mod Z.gcd itv base =? 0)) l).
   rewrite zlen_eqb_0.
-  destruct (filter (fun e_num : Z => (Z.gcd itv base =? 1) || ((e_num - start) mod Z.gcd itv base =? 0)) l); reflexivity.
+  destruct (filter _ l); reflexivity.
 Qed.
 
 Theorem gen_construct_byset_one : forall itv start k base,
   gen_construct_byset itv start (IOne k) base = construct_byset itv start [k] base.
 Proof.
   intros. unfold gen_construct_byset, construct_byset. cbv zeta.
-  rewrite (fold_filter (fun e_num => (Z.gcd itv base =? 1) || ((e_num - start) mod Z.gcd itv base =? 0)) [k]).
+  rewrite (fold_skip_filter (fun e_num => (0 <=? e_num) && (e_num <? base))
+             (fun e_num => (Z.gcd itv base =? 1) || ((e_num - start) mod Z.gcd itv base =? 0)) [k]).
   rewrite zlen_eqb_0.
-  destruct (filter (fun e_num : Z => (Z.gcd itv base =? 1) || ((e_num - start) mod Z.gcd itv base =? 0)) [k]); reflexivity.
+  destruct (filter _ [k]); reflexivity.
 Qed.
 
 (* ---- bysetpos *)
@@ -138,6 +149,7 @@ Definition md_rec (l : list Z) : list Z :=
 
 Lemma B_bymonthday2 a bmd o :
   gen_blk_bymonthday2 a bmd o =
+  if memZ 0 (opt_list (erase_i bmd)) then Err EValue else       (* fix 55654b4 *)
   Ok (filter (fun x => 0 <? x) (sort_set (opt_list (erase_i bmd))),
       filter (fun x => x <? 0) (sort_set (opt_list (erase_i bmd))),
       match erase_i bmd with
@@ -146,6 +158,7 @@ Lemma B_bymonthday2 a bmd o :
       end).
 Proof.
   unfold gen_blk_bymonthday2, md_rec. destruct bmd as [|k|l]; cbn [erase_i opt_list]; [reflexivity| |];
+    (match goal with |- context [memZ 0 ?x] => destruct (memZ 0 x) end; [reflexivity|]);
     rewrite !sort_set_filter_comm; destruct o; reflexivity.
 Qed.
 
@@ -272,9 +285,13 @@ Proof.
      destruct (negb match erase_i (a_bysetpos a) with None => true | Some l => setpos_ok l end); [reflexivity|];
      cbn [bind]; rewrite B_bysetpos2; cbn [bind];
      rewrite B_bymonth, B_byyearday, B_byeaster; cbn [bind];
-     rewrite B_bymonthday2, B_byweekno, B_byweekday; cbn [bind];
+     rewrite B_bymonthday2; rewrite ?erase_i_if; unfold v_zero;
+     (* fix 55654b4: the source raises here, the model among its later binds; in between only total blocks *)
+     match goal with |- context [memZ 0 ?x] => destruct (memZ 0 x) end;
+     [ cbn [bind]; match goal with |- context [v_wd ?f ?x] => destruct (v_wd f x) end; reflexivity |];
+     cbn [bind]; rewrite B_byweekno, B_byweekday; cbn [bind];
      rewrite B_byhour, B_byminute, B_bysecond;
-     rewrite !erase_i_if, !erase_w_if;
+     rewrite ?erase_i_if, ?erase_w_if;
      generalize (d_m a) (d_md a) (d_wd a); intros c1 c2 c3;
      match goal with |- context [v_wd ?f ?x] => destruct (v_wd f x) as [wd1 wd2] end; cbn [fst snd];
      match goal with |- context [v_time ?o ?b ?l ?i ?s 24] => destruct (v_time o b l i s 24) as [h1|e1]; [|reflexivity] end; cbn [bind];
